@@ -26,7 +26,9 @@ EXPLANATION = (
   "differs from the current one, at most once per page and under the page's own id, and a page "
   "without adjustment keeps a value that already satisfies R1; (R4) _removePageRecords computes "
   "the fixes over all pages in page order for the ids being removed, applies them as "
-  "(id -> indentation) before the removal, on every path. Locals that merely name a field of the page, a pair or a "
+  "(id -> indentation) before the removal, on every path. Integer locals that may hold None are tracked with a disjunctive loop-head invariant (one "
+  "element per None/number case), parallel assignments are interpreted. Locals that merely name "
+  "a field of the page, a pair or a "
   "parameter are followed, `continue` is interpreted, and the caller clauses are decided on "
   "values (comprehension or loop, sort()/sorted(), positional or keyword arguments). "
   "Assumption: indentations are "
@@ -186,6 +188,14 @@ class Interp(object):
         if not self._is_bool_expr(s.value) and not self._is_list_expr(s.value) and \
             not self._is_sym_expr(s.value):
           out.add(s.targets[0].id)
+      elif isinstance(s, ast.Assign) and len(s.targets) == 1 and \
+          isinstance(s.targets[0], (ast.Tuple, ast.List)) and \
+          isinstance(s.value, (ast.Tuple, ast.List)) and \
+          len(s.targets[0].elts) == len(s.value.elts):
+        for t, val in zip(s.targets[0].elts, s.value.elts):
+          if isinstance(t, ast.Name) and not self._is_bool_expr(val) and \
+              not self._is_list_expr(val) and not self._is_sym_expr(val):
+            out.add(t.id)
       elif isinstance(s, ast.AugAssign) and isinstance(s.target, ast.Name):
         out.add(s.target.id)
     return out
@@ -195,6 +205,21 @@ class Interp(object):
     return isinstance(e, (ast.Compare, ast.BoolOp)) or \
         (isinstance(e, ast.UnaryOp) and isinstance(e.op, ast.Not)) or \
         (isinstance(e, ast.Constant) and isinstance(e.value, bool))
+
+  def _maybe_none(self, name):
+    if not hasattr(self, "_noneable"):
+      self._noneable = set()
+      for s in walk_no_nested(self.node):
+        if isinstance(s, ast.Assign):
+          tg = s.targets[0]
+          pairs = [(tg, s.value)]
+          if isinstance(tg, (ast.Tuple, ast.List)) and isinstance(s.value, (ast.Tuple, ast.List)) \
+              and len(tg.elts) == len(s.value.elts):
+            pairs = list(zip(tg.elts, s.value.elts))
+          for t, val in pairs:
+            if isinstance(t, ast.Name) and isinstance(val, ast.Constant) and val.value is None:
+              self._noneable.add(t.id)
+    return name in self._noneable
 
   def _is_sym_expr(self, e):
     """An expression a local merely names: a field of the current item, a parameter, a pair."""
@@ -233,6 +258,8 @@ class Interp(object):
     if isinstance(e, ast.Name):
       if e.id not in self.ints:
         raise AnalysisError("fix_indents: %s is not an integer local" % e.id)
+      if st.bools.get("$none:" + e.id) is True:
+        raise AnalysisError("fix_indents: %s is used as a number where it is None" % e.id)
       return [(st, (e.id, 0))]
     if isinstance(e, ast.Attribute) and isinstance(e.value, ast.Name) and \
         e.value.id == self.item and e.attr == "indentation":
@@ -312,6 +339,21 @@ class Interp(object):
           nxt.extend(fa)
         cur = nxt
       return true, cur
+    if isinstance(t, ast.Compare) and len(t.ops) == 1 and \
+        isinstance(t.ops[0], (ast.Is, ast.IsNot)) and \
+        isinstance(t.comparators[0], ast.Constant) and t.comparators[0].value is None and \
+        isinstance(self._sym(st, t.left), ast.Name) and self._sym(st, t.left).id in self.ints:
+      # an integer local that may also hold None: tracked as a boolean beside the bounds
+      key = "$none:" + self._sym(st, t.left).id
+      if key not in st.bools:
+        a, b = st.copy(), st.copy()
+        a.bools[key] = True
+        a.d.forget(self._sym(st, t.left).id)
+        b.bools[key] = False
+        tr, fa = [a], [b]
+      else:
+        tr, fa = ([st], []) if st.bools[key] else ([], [st])
+      return (tr, fa) if isinstance(t.ops[0], ast.Is) else (fa, tr)
     if isinstance(t, ast.Compare) and len(t.ops) == 1:
       op = t.ops[0]
       if isinstance(op, (ast.In, ast.NotIn)):
@@ -389,9 +431,36 @@ class Interp(object):
         raise AnalysisError("fix_indents: continue outside the item loop")
       self.cont_states.append(st)
       return []
+    if isinstance(s, ast.Assign) and len(s.targets) == 1 and \
+        isinstance(s.targets[0], (ast.Tuple, ast.List)) and \
+        isinstance(s.value, (ast.Tuple, ast.List)) and \
+        len(s.targets[0].elts) == len(s.value.elts) and \
+        all(isinstance(t, ast.Name) for t in s.targets[0].elts):
+      # a, b = x, y: all right-hand sides are evaluated first
+      tg = [t.id for t in s.targets[0].elts]
+      for j, val in enumerate(s.value.elts):
+        used = {y.id for y in ast.walk(val) if isinstance(y, ast.Name)}
+        if used & set(tg[:j]):
+          raise AnalysisError("fix_indents: parallel assignment reads a name it has just "
+                              "written: %s" % short(s))
+      states = [st]
+      for t, val in zip(s.targets[0].elts, s.value.elts):
+        one = ast.copy_location(ast.Assign(targets=[t], value=val), s)
+        nxt = []
+        for x in states:
+          nxt.extend(self.stmt(x, one))
+        states = nxt
+      return states
+    if isinstance(s, ast.Assign) and len(s.targets) == 1 and isinstance(s.targets[0], ast.Name) \
+        and isinstance(s.value, ast.Constant) and s.value.value is None and \
+        s.targets[0].id in self.ints:
+      x = st.copy()
+      x.d.forget(s.targets[0].id)
+      x.bools["$none:" + s.targets[0].id] = True
+      return [x]
     if isinstance(s, ast.Assign) and len(s.targets) == 1 and isinstance(s.targets[0], ast.Name):
       name = s.targets[0].id
-      if self._is_sym_expr(s.value):
+      if self._is_sym_expr(s.value) and name not in self.ints:
         x = st.copy()
         x.syms[name] = s.value
         return [x]
@@ -414,6 +483,8 @@ class Interp(object):
       for (x, (v, c)) in self.ev_int(st, s.value):
         x = x.copy()
         x.d.assign(name, v, c)
+        if ("$none:" + name) in x.bools or self._maybe_none(name):
+          x.bools["$none:" + name] = False
         out.append(x)
       return out
     if isinstance(s, ast.AugAssign) and isinstance(s.target, ast.Name) and \
@@ -489,27 +560,42 @@ def analyse(fn):
   if len(init) != 1:
     raise AnalysisError("fix_indents: branching before the loop")
   ip.item = lp.target.id
-  head = init[0].d
+  # The loop-head invariant is a disjunction: one difference-bound element per valuation of the
+  # "this integer local currently holds None" flags (such a local has no numeric meaning while it
+  # is None, so mixing the two cases in one element would lose its bounds).
+  def flags_of(st):
+    return tuple(sorted((k, v) for k, v in st.bools.items() if k.startswith("$none:")))
+  syms0 = dict(init[0].syms)
+  h0 = init[0].d
   for v in (X, NEW):
-    head.forget(v)
+    h0.forget(v)
+  heads = {flags_of(init[0]): h0}
   ends = []
-  for it in range(40):
-    st = State(head.copy())
-    st.d.forget(X).forget(NEW)
-    st.d.assume(ZERO, X, 0)            # assumption: indentations are non-negative
-    ip.cont_states = []
-    ends = ip.block([st], lp.body)
-    ends = ends + ip.cont_states
-    nxt = head
-    for e in ends:
-      post = _ghost_update(ip, e)
-      nxt = nxt.join(post)
-    if nxt.leq(head):
+  for it in range(60):
+    ends = []
+    nxt = {k: d for k, d in heads.items()}
+    for key, head in sorted(heads.items()):
+      st = State(head.copy(), bools=dict(key), syms=syms0)
+      st.d.forget(X).forget(NEW)
+      st.d.assume(ZERO, X, 0)            # assumption: indentations are non-negative
+      ip.cont_states = []
+      out = ip.block([st], lp.body)
+      out = out + ip.cont_states
+      ends.extend(out)
+      for e in out:
+        post = _ghost_update(ip, e)
+        k2 = flags_of(e)
+        nxt[k2] = nxt[k2].join(post) if k2 in nxt else post
+    if set(nxt) == set(heads) and all(nxt[k].leq(heads[k]) for k in nxt):
       break
-    head = head.widen(nxt) if it >= 2 else nxt
+    heads = {k: (heads[k].widen(nxt[k]) if (k in heads and it >= 3) else nxt[k]) for k in nxt}
   else:
-    raise AnalysisError("fix_indents: no fixpoint after 40 iterations")
-  return ip, head, ends, lp, body[-1]
+    raise AnalysisError("fix_indents: no fixpoint after 60 iterations")
+  ip.heads = heads
+  inv = None
+  for k in sorted(heads):
+    inv = heads[k].copy() if inv is None else inv.join(heads[k])
+  return ip, inv, ends, lp, body[-1]
 
 
 def _deleted(ip, st):
@@ -550,7 +636,8 @@ def check(run, repo, tier):
   run.note("C36 loop-head invariant of fix_indents: " + inv.describe(hide=(X, NEW)))
   run.extra["invariant"] = inv.describe(hide=(X, NEW))
   # the invariant DESIGN.md names, read off the fixpoint
-  carry = [v for v in ints if inv.entails(v, K, 1) and inv.entails(ZERO, v, 0)]
+  carry = [v for v in ints if all(h.entails(v, K, 1) and h.entails(ZERO, v, 0)
+                                  for h in ip.heads.values())]
   run.ob(R1, q, "loop invariant: <carried bound> <= kept + 1 and >= 0",
          "some integer local carried around the loop is proved <= kept+1 and >= 0 at the loop "
          "head (fixpoint: %s)" % inv.describe(hide=(X, NEW)), bool(carry), fi=fn.fi, node=lp)
@@ -599,6 +686,25 @@ def check(run, repo, tier):
 KEEP = ("_removePageRecords",)
 
 
+def _orders_by_page_pos(w, fn, kf):
+  """True when the sort key maps a page to its pagePos: a lambda, a function (module-level or
+  local) whose body is `return <arg>.pagePos`, or operator.attrgetter('pagePos'). False for a
+  key that reads something else, None when the key cannot be read."""
+  if isinstance(kf, ast.Lambda) and len(kf.args.args) == 1:
+    return text(kf.body) == "%s.pagePos" % kf.args.args[0].arg
+  if isinstance(kf, ast.Call) and endswith(dotted(kf.func), "attrgetter") and \
+      len(kf.args) == 1 and isinstance(kf.args[0], ast.Constant):
+    return kf.args[0].value == "pagePos"
+  if isinstance(kf, ast.Name):
+    cand = w.repo.funcs.get(fn.qualname + "." + kf.id) or fn.fi.module.functions.get(kf.id)
+    if cand is not None and len(cand.params()) == 1:
+      body = [b for b in cand.node.body
+              if not (isinstance(b, ast.Expr) and isinstance(b.value, ast.Constant))]
+      if len(body) == 1 and isinstance(body[0], ast.Return) and body[0].value is not None:
+        return text(body[0].value) == "%s.pagePos" % cand.params()[0]
+  return None
+
+
 def _by_position(v, call, roles):
   """{role: argument} for the first len(roles) parameters of the callee, however they are
   passed."""
@@ -623,6 +729,7 @@ def r4_caller(run, w, ip):
     raise AnalysisError("%d callers of treeview.fix_indents (one expected)" % len(callers))
   fn = H.xfn(w, callers[0].qualname, keep=KEEP)
   v = H.View(fn)
+  run = H.Guarded(run, v, keep=KEEP)
   n, c = [(n, c) for (n, c, nm) in fn.calls() if endswith(nm, "treeview.fix_indents")][0]
   q = fn.qualname
   cfg = fn.cfg
@@ -639,11 +746,28 @@ def r4_caller(run, w, ip):
     sites = [d for d, names in v._gens().items() if pages.id in names]
     if len(sites) == 1:
       val = v._plain_value(pages.id, sites[0])
-      src_ok = val is not None and cfg.dominated_by(n.id, {sites[0]}) and \
-          v.t(val, at=sites[0]) in ("list(self._engine.tables[%s].filter_records())" % ps[1],
-                                    "sorted(self._engine.tables[%s].filter_records(), "
-                                    "key=lambda p: p.pagePos)" % ps[1])
-      if src_ok and v.t(val, at=sites[0]).startswith("sorted("):
+      vt_ = v.t(val, at=sites[0]) if val is not None else ""
+      all_recs = "self._engine.tables[%s].filter_records()" % ps[1]
+      forms = ("list(%s)" % all_recs, "sorted(%s, key=lambda p: p.pagePos)" % all_recs,
+               "[_p for _p in %s]" % all_recs)
+      if isinstance(val, ast.ListComp) and len(val.generators) == 1 and \
+          isinstance(val.generators[0].target, ast.Name):
+        vt_ = text(H._Renamer({val.generators[0].target.id: "_p"}).visit(
+          v.x(val, at=sites[0])))
+      if isinstance(val, ast.Call) and dotted(val.func) == "sorted" and len(val.args) == 1:
+        k_ = [kw.value for kw in val.keywords if kw.arg == "key"]
+        r_ = [kw.value for kw in val.keywords if kw.arg == "reverse"]
+        by = _orders_by_page_pos(w, fn, v.res(k_[0])) if len(k_) == 1 else False
+        if by is None:
+          raise AnalysisError("%s: cannot read the sort key %s" % (q, short(k_[0])))
+        if by and v.t(val.args[0], at=sites[0]) == all_recs and \
+            all(isinstance(r, ast.Constant) and not r.value for r in r_):
+          vt_ = forms[1]
+      src_ok = val is not None and cfg.dominated_by(n.id, {sites[0]}) and vt_ in forms
+      if not src_ok and all_recs in vt_:
+        raise AnalysisError("%s: the page list is built from all page records in a form the "
+                            "rule does not read: %s" % (q, short(val)))
+      if src_ok and vt_.startswith("sorted("):
         sort_ok = True
     sorts = set()
     for (m, c2, nm) in fn.calls():
@@ -653,9 +777,10 @@ def r4_caller(run, w, ip):
         k = [kw.value for kw in c2.keywords if kw.arg == "key"]
         rev = [kw.value for kw in c2.keywords if kw.arg == "reverse"]
         kf = v.res(k[0]) if len(k) == 1 else None
-        if isinstance(kf, ast.Lambda) and len(kf.args.args) == 1 and \
-            text(kf.body) == "%s.pagePos" % kf.args.args[0].arg and \
-            all(isinstance(r, ast.Constant) and not r.value for r in rev):
+        by_pos = _orders_by_page_pos(w, fn, kf) if kf is not None else False
+        if by_pos is None:
+          raise AnalysisError("%s: cannot read the sort key %s" % (q, short(kf)))
+        if by_pos and all(isinstance(r, ast.Constant) and not r.value for r in rev):
           sorts.add(m.id)
     others = {m for m in v.du.muts.get(pages.id, set()) if m not in sorts}
     if sorts and cfg.dominated_by(n.id, sorts) and not (cfg.reach_after(sorts) & others & \
@@ -738,6 +863,29 @@ VARIANTS = [
   ("adjustment-never-recorded-when-needed", TV,
    "    if indent != item.indentation and not is_deleted:",
    "    if indent > item.indentation and not is_deleted:", "C36-R1"),
+  ("seeded-next-page-capped-at-vacated-level-alone", TV,
+   "  max_next_indent = 0\n"
+   "  adjustments = []\n"
+   "  for item in items:\n"
+   "    indent = min(max_next_indent, item.indentation)\n"
+   "    is_deleted = item.id in deleted_ids\n"
+   "    if indent != item.indentation and not is_deleted:\n"
+   "      adjustments.append((item.id, indent))\n"
+   "    max_next_indent = indent if is_deleted else indent + 1\n",
+   "  max_next_indent = 0\n"
+   "  vacated_indent = None\n"
+   "  adjustments = []\n"
+   "  for item in items:\n"
+   "    if item.id in deleted_ids:\n"
+   "      if vacated_indent is None or item.indentation < vacated_indent:\n"
+   "        vacated_indent = item.indentation\n"
+   "      continue\n"
+   "    if vacated_indent is not None:\n"
+   "      max_next_indent, vacated_indent = vacated_indent, None\n"
+   "    indent = min(max_next_indent, item.indentation)\n"
+   "    if indent != item.indentation:\n"
+   "      adjustments.append((item.id, indent))\n"
+   "    max_next_indent = indent + 1\n", "C36-R1"),
   ("adjustment-under-wrong-id", TV, "      adjustments.append((item.id, indent))",
    "      adjustments.append((indent, item.id))", "C36-R3"),
   ("fixes-applied-after-removal", U,
